@@ -485,6 +485,8 @@ def gen_life(crng, wrng, srng, frng, tier, bundled):
                 if wrng.random() < 0.3:
                     tlds = [l for l in alphabet if wrng.random() < 0.6]
                 ev = {"op": "publish", "public": list(public), "private": list(private), "tlds": list(tlds), "c": "ENV"}
+            if wrng.random() < 0.35:
+                ev["fmt"] = {"crlf": wrng.random() < 0.5, "pad": wrng.random() < 0.4, "nofinal": wrng.random() < 0.4, "puny": wrng.random() < 0.5, "nomarkers": wrng.random() < 0.25, "tail": wrng.random() < 0.3}
             events.append(ev)
         elif op in ("upgrade_t", "upgrade_p"):
             ev = {"op": "upgrade", "transient": op == "upgrade_t", "fault": None, "c": "OP"}
@@ -696,8 +698,13 @@ class LifeRun(Base):
     # -- helpers ------------------------------------------------------------------
     def publish_bodies(self):
         o = self.origin
-        self.net.publish(FakeNet.PSL, psl.render_psl_text(o["public"], o["private"]).encode("utf-8"))
-        self.net.publish(FakeNet.IANA, psl.render_tld_text(o["tlds"]).encode("utf-8"))
+        fmt = o.get("fmt")
+        if fmt:
+            for k in sorted(fmt):
+                if fmt[k]:
+                    self.stats.probe("list_format_" + k)
+        self.net.publish(FakeNet.PSL, psl.render_psl_text(o["public"], o["private"], fmt).encode("utf-8"))
+        self.net.publish(FakeNet.IANA, psl.render_tld_text(o["tlds"], fmt).encode("utf-8"))
 
     def sweep_hosts(self, rule_list):
         if self.hosts is not None:
@@ -838,7 +845,7 @@ class LifeRun(Base):
         op = ev["op"]
         stats = self.stats
         if op == "publish":
-            self.origin = {"public": list(ev["public"]), "private": list(ev["private"]), "tlds": list(ev["tlds"])}
+            self.origin = {"public": list(ev["public"]), "private": list(ev["private"]), "tlds": list(ev["tlds"]), "fmt": ev.get("fmt")}
             self.publish_bodies()
             stats.event("ENV|publish|%d|%d|%d" % (len(ev["public"]), len(ev["private"]), len(ev["tlds"])))
         elif op == "publish_delta":
@@ -850,6 +857,8 @@ class LifeRun(Base):
             o["private"] = [x for x in o["private"] if x not in remove] + list(ev.get("add_private", ()))
             o["tlds"] = [x for x in o["tlds"] if x not in set(ev.get("tld_remove", ()))] + [x for x in ev.get("tld_add", ()) if x not in o["tlds"]]
             self.touched.extend(sorted(remove) + list(ev.get("add_public", ())) + list(ev.get("add_private", ())))
+            if "fmt" in ev:
+                o["fmt"] = ev["fmt"]
             self.publish_bodies()
             stats.event("ENV|publish_delta|%s" % canon(ev))
         elif op == "upgrade":
@@ -940,7 +949,7 @@ class LifeRun(Base):
                 self.persisted = None
             if not transient and fault is None:
                 try:
-                    tlds = [t.lower() for t in body1.decode("utf-8").split("\n") if t and not t.startswith("#")]
+                    tlds = [t.strip().lower() for t in body1.decode("utf-8").split("\n") if t.strip() and not t.startswith("#")]
                 except UnicodeDecodeError:
                     tlds = []
                 self.persisted = (served, tlds)
@@ -1265,6 +1274,12 @@ PROBES = [
     "failed_upgrade_left_served",
     "crash_torn",
     "crash_lost_interior_block",
+    "list_format_crlf",
+    "list_format_pad",
+    "list_format_nofinal",
+    "list_format_puny",
+    "list_format_nomarkers",
+    "list_format_tail",
     "restart_ok",
     "restart_bootfail",
     "recovered_after_faults",
